@@ -4,6 +4,7 @@ import FitModel.LatLng
 import FitModel.Encode
 import FitModel.Parse
 import FitModel.Gen.Strings
+import FitModel.GenCore
 import FitModel.Gen.Profile
 /-
   Line-protocol driver: one case per input line, one canonical result line per case.
@@ -304,8 +305,20 @@ def runStrs (tname lo hi : String) : String :=
     joinWith "," ((Str.intRange a b).map fun i => hexOf ((Str.strOf T i).map UInt8.ofNat))
   | _, _, _ => "bad-strs"
 
+/-- `gencore msg:num:enabled:code;…` → `msg:sindex:num:code;…` -/
+def runGenCore (rows : String) : String :=
+  let rs := (splitOnChar rows ';').filterMap fun s =>
+    match splitOnChar s ':' with
+    | [m, n, e, c] =>
+      match parseNat? n, parseNat? c with
+      | some num, some code => some (GenCore.Row.mk m num (e == "1") code)
+      | _, _ => none
+    | _ => none
+  joinWith ";" ((GenCore.gen rs).map fun e => s!"{e.msg}:{e.sindex}:{e.num}:{e.tcode}")
+
 def runLine1 (line : String) : String :=
   match splitOnChar line ' ' with
+  | ["gencore", rows] => runGenCore rows
   | ["strs", t, lo, hi] => runStrs t lo hi
   | ["encrep", _, arch, dump] => runEncRep arch dump
   | ["enc", arch, dump] => runEnc arch dump
